@@ -21,6 +21,7 @@ use crate::c10::{build_perm, build_system, ctl_challenges_of, pv, pv_system, Sys
 use crate::rng::*;
 
 type H = <C as GenericConfig<D>>::Hasher;
+fn rf(r: &mut Rng) -> F { F::from_noncanonical_u64(r.next_u64()) }
 
 /// challenge stages in drawing order: 0 lookup challenge set, 1 stark_alphas, 2 stark_zeta, 3 fri_alpha,
 /// 4.. one per fri_beta, then pow response, then query indices
@@ -177,10 +178,63 @@ fn system_sensitivity(w: &mut dyn Write, r: &mut Rng, sys: &System, sname: &str,
     n
 }
 
+/// Challenger::fri_challenges with the variable-degree options: every commit cap, every final-polynomial
+/// coefficient and the grinding witness must influence what is drawn after them for EVERY combination of
+/// `final_poly_coeff_len` (absent, equal, longer = zero padding, SHORTER than the proof's polynomial) and
+/// `max_num_query_steps` (absent, equal, larger = zero caps).
+fn fri_challenges_options(w: &mut dyn Write, r: &mut Rng, thorough: bool) -> usize {
+    use plonky2::field::extension::quadratic::QuadraticExtension;
+    use plonky2::field::polynomial::PolynomialCoeffs;
+    use plonky2::hash::hash_types::HashOut;
+    use plonky2::hash::merkle_tree::MerkleCap;
+    let cfg = stark_configs()[0].1.fri_config.clone();
+    let mut n = 0;
+    let rand_fe = |r: &mut Rng| QuadraticExtension::<F>([rf(r), rf(r)]);
+    for (ncoef, ncaps) in [(8usize, 2usize), (16, 1), (1, 0), (4, 3)] {
+        if !thorough && ncoef == 4 { continue; }
+        let caps: Vec<MerkleCap<F, H>> = (0..ncaps).map(|_| MerkleCap((0..(1usize << cfg.cap_height)).map(|_| HashOut { elements: [rf(r), rf(r), rf(r), rf(r)] }).collect())).collect();
+        let poly = PolynomialCoeffs::new((0..ncoef).map(|_| rand_fe(r)).collect());
+        let pw = rf(r);
+        let lens: Vec<Option<usize>> = vec![None, Some(ncoef), Some(2 * ncoef), Some(ncoef / 2), Some(1), Some(0)];
+        let steps: Vec<Option<usize>> = vec![None, Some(ncaps), Some(ncaps + 2)];
+        for fl in &lens {
+            for st in &steps {
+                let stage = |caps: &[MerkleCap<F, H>], poly: &PolynomialCoeffs<FE>, pw: F| -> Option<Vec<Vec<u64>>> {
+                    catch_unwind(AssertUnwindSafe(|| {
+                        let mut ch = Challenger::<F, H>::new();
+                        let c = ch.fri_challenges::<C, D>(caps, poly, pw, 6, &cfg, *fl, *st);
+                        let mut v = vec![c.fri_alpha.0.iter().map(|x| x.to_canonical_u64()).collect::<Vec<_>>()];
+                        for b in &c.fri_betas { v.push(b.0.iter().map(|x| x.to_canonical_u64()).collect()); }
+                        v.push(vec![c.fri_pow_response.to_canonical_u64()]);
+                        v.push(c.fri_query_indices.iter().map(|x| *x as u64).collect());
+                        v
+                    })).ok()
+                };
+                let Some(base) = stage(&caps, &poly, pw) else { continue };
+                let subject = format!("fri_challenges/coeffs{ncoef}-caps{ncaps}-len{}-steps{}", fl.map_or("none".into(), |x| x.to_string()), st.map_or("none".into(), |x| x.to_string()));
+                for j in 0..ncoef {
+                    if ncoef > 8 && j % 3 != 0 && j != ncoef - 1 { continue; }
+                    let mut p2 = poly.clone();
+                    p2.coeffs[j] += FE::ONE;
+                    n += judge(w, &subject, "final_poly", j, &base, stage(&caps, &p2, pw), 1 + ncaps);
+                }
+                for i in 0..ncaps {
+                    let mut c2 = caps.clone();
+                    c2[i].0[0].elements[1] += F::ONE;
+                    n += judge(w, &subject, &format!("commit_cap_{i}"), i, &base, stage(&c2, &poly, pw), 1 + i);
+                }
+                n += judge(w, &subject, "pow_witness", 0, &base, stage(&caps, &poly, pw + F::ONE), 1 + ncaps);
+            }
+        }
+    }
+    n
+}
+
 pub fn run(r: &mut Rng, tier: &str, w: &mut dyn Write) -> usize {
     let thorough = tier == "thorough";
     let cfgs = stark_configs();
     let mut n = 0;
+    n += fri_challenges_options(w, r, thorough);
     // random STARKs without lookups (with public inputs), lookup STARKs
     let mut singles: Vec<(String, Built, usize)> = vec![];
     singles.push(("random-c3p3-d2".into(), build_random(r, 3, 3, 2, 32), 0));
